@@ -55,11 +55,15 @@ Explains(toks, abi, run, S, which) ==
   LET EV == CfiRunV(toks, abi, VOf(S))
   IN  /\ run.exc = EV.err
       /\ (IF which = "cp" THEN ObsCp(run) ELSE ObsNow(run)) = CanonYs(EV.ys)
+\* a smallest explaining set, searched by increasing size (most runs need one deviation)
+RECURSIVE MinExplaining(_, _, _, _, _, _)
+MinExplaining(toks, abi, run, which, R, k) ==
+  IF k > Cardinality(R) THEN {}
+  ELSE LET ok == {S \in SUBSET R : Cardinality(S) = k /\ Explains(toks, abi, run, S, which)}
+       IN  IF ok # {} THEN CHOOSE S \in ok : TRUE
+           ELSE MinExplaining(toks, abi, run, which, R, k + 1)
 KfTagsRun(toks, abi, run, which) ==
-  LET ok == {S \in (SUBSET Relevant(toks, abi)) \ {{}} : Explains(toks, abi, run, S, which)}
-  IN  IF ok = {} THEN {}
-      ELSE LET S == CHOOSE S \in ok : \A T \in ok : Cardinality(S) <= Cardinality(T)
-           IN  {KfOf(d) : d \in S}
+  {KfOf(d) : d \in MinExplaining(toks, abi, run, which, Relevant(toks, abi), 1)}
 
 FirstDiff(obs, exp) ==
   LET I == {i \in 1..Len(obs) : i > Len(exp) \/ obs[i] # exp[i]}
